@@ -144,7 +144,7 @@ func genC17(tier string, seed int64) (*Family, error) {
 	fam := &Family{
 		Prop: "C17", Files: map[string]string{},
 		Bounds:    map[string]interface{}{"pool_sizes": "(min,max) in {(1,2),(1,3),(2,3)} (thorough adds (2,4),(3,4))", "pre_state": "arbitrary distribution of the instances over {own list, held by a request}, lists rotated arbitrarily", "request_outcomes": "normal, rule error (symbolic flag), panic out of the pool method"},
-		Cfg:       interp.Config{MaxSteps: 3_000_000, TrackFields: []string{"engine.GenginePool.freeGengines", "engine.GenginePool.additionGengines"}},
+		Cfg:       interp.Config{MaxSteps: 3_000_000, StepsAreHang: true, TrackFields: []string{"engine.GenginePool.freeGengines", "engine.GenginePool.additionGengines"}},
 		Functions: []string{"engine.GenginePool).getGengine", "engine.GenginePool).putGengineLocked", "engine.GenginePool).prepareWithMultiInput", "engine.GenginePool).prepare"},
 	}
 	fam.Assumptions = []string{
@@ -231,6 +231,8 @@ func %s() {
 	_, _ = names, stag
 	for round := 0; round < 3; round++ {
 		fail := vnd.Bool("fail")
+		pol := vnd.Bool("pol")
+		_ = pol
 		data := map[string]interface{}{"req": vnd.Int64("req"), "resp": int64(5), "fail": fail}
 		err, res := %s
 		_ = res
@@ -244,7 +246,7 @@ func %s() {
 	}
 	vnd.Reach("executed")
 }
-`, pc.name, name, pc.call, pc.name != "ExecuteRulesWithSpecifiedEM")
+`, pc.name, name, strings.ReplaceAll(strings.ReplaceAll(pc.call, ", true, ", ", pol, "), "data, true)", "data, pol)"), pc.name != "ExecuteRulesWithSpecifiedEM")
 		fam.Instances = append(fam.Instances, Instance{Func: name, Stratum: "release", Desc: pc.name + " hands its instance back", Expect: []string{"executed"}})
 	}
 	b.WriteString(`
@@ -288,9 +290,52 @@ func C_two_in_flight() {
 	vnd.Reach("executed")
 }
 `)
+	// a request that found every instance busy proceeds as soon as any instance is handed back
+	for _, back := range []string{"initial", "additional"} {
+		name := "W_waiter_" + back
+		fmt.Fprintf(&b, `
+// all instances busy, one request waiting, then the %s instance is handed back
+func %s() {
+	gp := zzReqPool(1, 2)
+	all := zzAllWrappers(gp)
+	g1, _ := gp.getGengine()
+	g2, _ := gp.getGengine()
+	vnd.Assert(g1 != nil && g2 != nil && g1 != g2 && !g1.addition && g2.addition, "both instances are out")
+	var got *gengineWrapper
+	var wg sync.WaitGroup
+	wg.Add(1)
+	go func() {
+		defer wg.Done()
+		got, _ = gp.getGengine()
+		vnd.Event("served")
+	}()
+	vnd.Nap() // the third request is now polling
+	back, other := g1, g2
+	if %v {
+		back, other = g2, g1
+	}
+	gp.putGengineLocked(back)
+	wg.Wait()
+	vnd.Assert(got == back, "the waiting request is served with the instance that came back")
+	zzPartition(gp, all, []*gengineWrapper{got, other})
+	gp.putGengineLocked(got)
+	gp.putGengineLocked(other)
+	vnd.Quiesce()
+	zzPartition(gp, all, nil)
+	zzLocksFree(gp)
+	vnd.Reach("executed")
+}
+`, back, name, back == "additional")
+		fam.Instances = append(fam.Instances, Instance{Func: name, Stratum: "waiter", Desc: "a waiting request is served when the " + back + " instance comes back", Expect: []string{"executed"}, Nondet: true})
+	}
 	fam.Instances = append(fam.Instances, Instance{Func: "R_panic_out_of_pool_method", Stratum: "release", Desc: "panic out of a pool method releases the instance", Expect: []string{"executed"}},
 		Instance{Func: "C_two_in_flight", Stratum: "capacity", Desc: "two requests in flight, hand-back, again", Expect: []string{"executed"}})
 	finishPoolFamily(fam, "C17", b.String())
+	for p, src := range fam.Files {
+		if strings.HasSuffix(p, "zz_vh_c17.go") {
+			fam.Files[p] = strings.Replace(src, "import (\n\t\"strconv\"", "import (\n\t\"strconv\"\n\t\"sync\"", 1)
+		}
+	}
 	return fam, nil
 }
 
